@@ -161,7 +161,7 @@ impl<'a> IrEmitter<'a> {
             //
             // This avoids capitalization heuristics that can mis-emit runtime variables named `TitleCase`.
             if Self::receiver_is_type_like(receiver) {
-                let type_ident = format_ident!("{}", name);
+                let type_ident = format_ident!("{}", Self::escape_keyword(name));
                 let m = format_ident!("{}", Self::escape_keyword(method));
                 // Apply Incan-style argument conversions when calling associated functions on Incan-owned types
                 // (structs/enums/traits). This is important for `str` literals which are emitted as `&'static str`,
@@ -300,7 +300,7 @@ impl<'a> IrEmitter<'a> {
                 .collect::<Result<_, _>>()?
         };
 
-        let type_ident = format_ident!("{}", type_name);
+        let type_ident = format_ident!("{}", Self::escape_keyword(type_name));
         let m = format_ident!("{}", Self::escape_keyword(variant));
         Ok(quote! { #type_ident::#m(#(#arg_tokens),*) })
     }
